@@ -221,7 +221,131 @@ fn run_history(id: String, seed: u64, len: usize, cfg: DbCfg, out: &mut CaseOut,
     }
 }
 
+/// Compaction grid (added after seeds C01d / C07d, which the random histories missed): one table whose columns enumerate
+/// every sequence of per-partition column modes over three consecutive partitions - D dense values, N values with NULLs,
+/// X column absent from the batch, E column present but empty (all NULL), T values followed by >= 8 trailing NULLs - for
+/// int, float and string columns (5^3 x 3 = 375 columns), ingested as 6 batches with one flush each under
+/// `partition_combine_factor = 2`, so that partitions 1-3 and then 4-6 are merged three at a time (a ballast column keeps
+/// the partition sizes equal, which fixes the compaction plan). Row-count profiles put the chunk boundaries on and off
+/// multiples of 8 (null-map byte boundaries). After every step the whole table is compared with the model.
+const CGRID_MODES: [char; 5] = ['D', 'N', 'X', 'E', 'T'];
+const CGRID_PROFILES: [[usize; 3]; 6] = [[8, 8, 8], [16, 8, 24], [64, 64, 64], [9, 7, 16], [8, 16, 8], [12, 12, 16]];
+
+fn cgrid_value(kind: &str, global_row: usize, col: usize) -> V {
+    match kind {
+        "int" => V::Int(((global_row * 7 + col) % 200) as i64 + 1),
+        "float" => V::Float(global_row as f64 + 0.5 + col as f64),
+        _ => V::Str(format!("s{}", (global_row + col) % 5)),
+    }
+}
+
+fn cgrid_cells(kind: &str, mode: char, rows: usize, first_row: usize, col: usize) -> Option<Vec<V>> {
+    let val = |r: usize| cgrid_value(kind, first_row + r, col);
+    match mode {
+        'X' => None,
+        'E' => Some(vec![V::Null; rows]),
+        'D' => Some((0..rows).map(val).collect()),
+        'N' => Some((0..rows).map(|r| if (r + col) % 3 == 1 { V::Null } else { val(r) }).collect()),
+        _ => {
+            // values, then at least 8 trailing NULLs when the chunk is long enough (otherwise one value, then NULLs)
+            let keep = if rows > 8 { rows - 8 } else { 1 };
+            Some((0..rows).map(|r| if r < keep { val(r) } else { V::Null }).collect())
+        }
+    }
+}
+
+fn run_cgrid(profile: usize, lz4: bool, five_way: bool, seed: u64, out: &mut CaseOut, op: &OpCell) {
+    let rows_of = CGRID_PROFILES[profile];
+    // ballast bytes per batch, chosen so that the size rule of plan_compaction merges exactly partitions 1-3 and then 4-6
+    // (factor 2), or all five partitions at the fifth flush (factor 4)
+    let ballast: &[usize] = if five_way { &[1_150_000, 1_125_000, 1_100_000, 1_075_000, 1_050_000] } else { &[1_150_000, 1_050_000, 950_000, 950_000, 850_000, 750_000] };
+    let factor = if five_way { 4 } else { 2 };
+    let cfg = DbCfg { disk: true, mem_lz4: lz4, partition_combine_factor: factor, ..DbCfg::default() };
+    let mut w = World::open(&cfg, Via::Wire, op);
+    let mut rng = Rng::derive(seed, "cgrid", profile as u64);
+    let mut cols: Vec<(String, &'static str, [char; 3])> = Vec::new();
+    for kind in ["int", "float", "str"] {
+        for a in CGRID_MODES {
+            for b in CGRID_MODES {
+                for c in CGRID_MODES {
+                    cols.push((format!("{}_{}{}{}", &kind[..1], a, b, c), kind, [a, b, c]));
+                }
+            }
+        }
+    }
+    let case = json!({"profile": rows_of, "mem_lz4": lz4, "combine_factor": factor, "columns": "kind_<mode per partition>: D dense, N nullable, X absent, E empty, T trailing NULLs"});
+    let mut first_row = 0usize;
+    let mut ops: Vec<Op> = Vec::new();
+    let mut merges3 = 0u64;
+    for b in 0..ballast.len() {
+        let rows = rows_of[b % 3];
+        let mut bc = vec![("id".to_string(), ColRepr::I64((first_row as i64..(first_row + rows) as i64).collect()))];
+        // equal partition sizes whatever the row count: the ballast dominates the byte size of every partition
+        let per_row = ballast[b] / rows;
+        bc.push(("zz_ballast".to_string(), ColRepr::from_logical(&(0..rows).map(|_| V::Str((0..per_row / 16).map(|_| format!("{:016x}", rng.next_u64())).collect::<String>())).collect::<Vec<_>>())));
+        for (ci, (name, kind, modes)) in cols.iter().enumerate() {
+            if let Some(cells) = cgrid_cells(kind, modes[b % 3], rows, first_row, ci) {
+                bc.push((name.clone(), ColRepr::from_logical(&cells)));
+            }
+        }
+        first_row += rows;
+        for o in [Op::Ingest(vec![Batch { table: "g".into(), rows, cols: bc }]), Op::Flush] {
+            let cat_before = catalogue_ids(&w);
+            w.apply(&o);
+            ops.push(o.clone());
+            if matches!(o, Op::Flush) {
+                let cat_after = catalogue_ids(&w);
+                let old = cat_before.get("g").cloned().unwrap_or_default();
+                let now = cat_after.get("g").cloned().unwrap_or_default();
+                // arity of a merge = replaced partitions + the partition this flush created (it is merged before it is ever listed)
+                let mut gone = 0;
+                for np in now.iter().filter(|p| !old.contains(p)) {
+                    let inside: Vec<&(u64, usize, usize)> = old.iter().filter(|o| o.1 >= np.1 && o.1 + o.2 <= np.1 + np.2).collect();
+                    if !inside.is_empty() {
+                        let covered: usize = inside.iter().map(|o| o.2).sum();
+                        gone = inside.len() + if np.2 > covered { 1 } else { 0 };
+                    }
+                }
+                if gone >= 3 {
+                    merges3 += 1;
+                }
+                if gone > 0 {
+                    out.set("merge_arity", format!("cgrid:{}", gone));
+                    out.count("compactions", 1);
+                }
+            }
+            out.eval(1);
+            for m in w.check_tables() {
+                out.fail(Failure::new("maintenance", &m.mode, &format!("cgrid|step={}", o.name()), format!("compaction grid {:?} lz4={} after '{}': {}", rows_of, lz4, history_string(&ops), m.detail), case.clone()));
+                return;
+            }
+        }
+    }
+    out.count("cgrid_merges_of_3_or_more", merges3);
+    // cold read of the merged partitions, and after a restart
+    for o in [Op::Evict, Op::Restart { quiescent: false }] {
+        w.apply(&o);
+        ops.push(o.clone());
+        out.eval(1);
+        for m in w.check_tables() {
+            out.fail(Failure::new("maintenance", &m.mode, &format!("cgrid|step={}", o.name()), format!("compaction grid {:?} lz4={} after '{}': {}", rows_of, lz4, history_string(&ops), m.detail), case.clone()));
+            return;
+        }
+    }
+    out.distinct(format!("cgrid|profile={:?}|lz4={}|factor={}|merges3={}", rows_of, lz4, factor, merges3));
+}
+
 pub fn run(ctx: &mut Ctx) {
+    for profile in 0..CGRID_PROFILES.len() {
+        for (lz4, five_way) in [(false, false), (true, false), (false, true), (true, true)] {
+            let id = format!("cgrid-{}-{}-{}", profile, lz4, if five_way { 5 } else { 3 });
+            if !ctx.take(&id) {
+                continue;
+            }
+            let seed = ctx.seed;
+            ctx.run(&id, "compaction-grid", json!({"profile": CGRID_PROFILES[profile], "mem_lz4": lz4, "merge_arity": if five_way { 5 } else { 3 }}), move |out, op| run_cgrid(profile, lz4, five_way, seed, out, op));
+        }
+    }
     let n = ctx.pick(1280u64, 40000);
     for i in 0..n {
         if i >= 1280 && ctx.out_of_time() {
